@@ -36,6 +36,30 @@ SKELETONS = {
                       ('b', 2), ('    more\n', []), ('b', 1), ('<div>\n', ['HtmlBlock']), ('x\n', [])],
     'quote-in-item': [('- > q\n', ['List', 'ListItem', 'Quote', 'Paragraph']), ('  > r\n', []), ('b', 0), ('  p\n', ['Paragraph']), ('b', 1),
                       ('> - i\n', ['Quote', 'List', 'ListItem', 'Paragraph']), ('>   j\n', [])],
+    # second batch: less travelled sites -- setext headings and tables inside containers, definitions in front of
+    # other blocks (Footnote.read backtracking), HTML blocks and fences inside containers, two-level quotes, lazy
+    # continuation, tab-indented content, every paragraph interrupter without a blank line
+    'setext-nested': [('- t\n', ['List', 'ListItem', 'SetextHeading']), ('  --\n', []), ('b', 0), ('1. u\n', ['List', 'ListItem', 'SetextHeading']),
+                      ('   ==\n', []), ('b', 1), ('p\n', ['SetextHeading']), ('==\n', [])],
+    'defs-then-blocks': [('[a]: /u\n', []), ('[b]: /v\n', []), ('# h\n', ['Heading']), ('b', 0), ('[c]: /w\n', []), ('text\n', ['Paragraph']),
+                         ('b', 1), ('> [d]: /x\n', ['Quote']), ('> p\n', ['Paragraph']), ('b', 2), ('- [e]: /y\n', ['List', 'ListItem']),
+                         ('  q\n', ['Paragraph'])],
+    'table-nested': [('> |a|\n', ['Quote', 'Table', 'TableRow', 'TableCell']), ('> |-|\n', []), ('> |c|\n', ['TableRow', 'TableCell']), ('b', 0),
+                     ('- |d|\n', ['List', 'ListItem', 'Table', 'TableRow', 'TableCell']), ('  |-|\n', []), ('  |e|\n', ['TableRow', 'TableCell']),
+                     ('b', 1), ('z\n', ['Paragraph'])],
+    'html-fence-nested': [('> <div>\n', ['Quote', 'HtmlBlock']), ('> x\n', []), ('b', 0), ('- ```\n', ['List', 'ListItem', 'CodeFence']),
+                          ('  c\n', []), ('b', 1), ('  ```\n', []), ('  after\n', ['Paragraph']), ('b', 2), ('<!-- c\n', ['HtmlBlock']),
+                          ('-->\n', []), ('t\n', ['Paragraph'])],
+    'deep': [('> > - a\n', ['Quote', 'Quote', 'List', 'ListItem', 'Paragraph']), ('> >\n', []), ('> >   b\n', ['Paragraph']), ('b', 0),
+             ('1) x\n', ['List', 'ListItem', 'Paragraph']), ('b', 1), ('   1) y\n', ['List', 'ListItem', 'Paragraph']), ('b', 2),
+             ('      > z\n', ['Quote', 'Paragraph'])],
+    'lazy-list': [('- a\n', ['List', 'ListItem', 'Paragraph']), ('lazy\n', []), ('b', 0), ('- b\n', ['ListItem', 'Paragraph']), ('b', 1),
+                  ('    more\n', ['Paragraph']), ('b', 2), ('# end\n', ['Heading'])],
+    'tabs': [('-\ta\n', ['List', 'ListItem', 'Paragraph']), ('b', 0), ('\tb\n', ['Paragraph']), ('b', 1), ('>\tq\n', ['Quote', 'Paragraph']),
+             ('b', 2), ('\tcode\n', ['BlockCode'])],
+    'para-then-interrupters': [('p\n', ['Paragraph']), ('# h\n', ['Heading']), ('q\n', ['Paragraph']), ('> r\n', ['Quote', 'Paragraph']),
+                               ('- s\n', ['List', 'ListItem', 'Paragraph']), ('```\n', ['CodeFence']), ('b', 0), ('```\n', []), ('u\n', ['Paragraph']),
+                               ('***\n', ['ThematicBreak']), ('b', 1), ('v\n', ['Paragraph']), ('    w\n', [])],
 }
 NBLANKS = {name: 1 + max([e[1] for e in sk if e[0] == 'b'] + [-1]) for name, sk in SKELETONS.items()}
 
@@ -127,6 +151,14 @@ def blanks_used(b0, b1, b2):
 MIN1 = {
     'leaf-blocks': (1, 2), 'quote': (1,), 'quote-lazy': (0, 1), 'list': (1, 2), 'list-blank-start': (0, 1),
     'ordered-nested': (1,), 'table': (), 'defs-and-code': (0, 1, 2), 'quote-in-item': (0, 1),
+    'setext-nested': (0, 1),
+    'defs-then-blocks': (1, 2),
+    'table-nested': (0, 1),
+    'html-fence-nested': (0, 2),
+    'deep': (0,),
+    'lazy-list': (0, 1, 2),
+    'tabs': (0, 1, 2),
+    'para-then-interrupters': (),
 }
 
 
